@@ -20,6 +20,7 @@ type HarnessSpec struct {
 	MaxPaths     int
 	GrowSlack    int
 	NoMerge      bool
+	PoolNondet   bool // sync.Pool.Get may return a fresh object or any pooled one (ownership harnesses)
 	NoReplay     bool
 	TimeoutMs    int
 	OpaqueStrMax int
@@ -83,14 +84,14 @@ var registry = []HarnessSpec{
 		Bounds:  "codec output 1..3 arbitrary bytes or failure; <= 3 Write calls with arbitrary short counts / errors; all option words (EscapeHTML, ValidateString off)",
 		Assumes: []string{"the per-type encoder program (encodeTypedPointer) is a stub appending 1..3 arbitrary bytes or failing"}},
 
-	{Prop: "C06", Pkg: mod + "/internal/encoder", PkgName: "encoder", Func: "VerifC06EncodeOwnership", Tier: "quick", Covers: []string{"error", "above-limit", "below-limit"},
+	{Prop: "C06", Pkg: mod + "/internal/encoder", PkgName: "encoder", Func: "VerifC06EncodeOwnership", Tier: "quick", Covers: []string{"error", "above-limit", "below-limit"}, PoolNondet: true,
 		Desc:    "encoder.Encode: the returned slice is caller-owned: not owned by bytesPool at return, not aliased by the next call's result, unchanged by the next call; no double Put / use after Put (engine ghost state on every pool operation)",
 		Bounds:  "pool limit scaled to 4 bytes (encoding parameter), default buffer capacity 0..6, optional earlier pooled buffer of capacity 0..4, codec output 1..3 bytes, two consecutive calls",
 		Assumes: []string{"the per-type encoder program (encodeTypedPointer) is a stub appending 1..3 arbitrary bytes or failing", "sync.Pool.Get returns New() or any object previously Put (nondeterministic)"}},
 	{Prop: "C06", Pkg: mod + "/internal/encoder", PkgName: "encoder", Func: "VerifC06EncodeInto", Tier: "quick", Covers: []string{"end"},
 		Desc:   "encoder.EncodeInto: caller prefix preserved, every store inside the (possibly re-allocated) buffer, for every initial len/cap",
 		Bounds: "cap 0..4, len 0..cap, codec output 1..3 bytes"},
-	{Prop: "C06", Pkg: mod + "/internal/decoder/api", PkgName: "api", Func: "VerifC17StreamDecode3", Tier: "quick", Covers: []string{"clean-eof"},
+	{Prop: "C06", Pkg: mod + "/internal/decoder/api", PkgName: "api", Func: "VerifC06StreamDecodeCopy", Tier: "quick", Covers: []string{"clean-eof"},
 		Desc:   "StreamDecoder.Decode hands the decoder a private copy of the framed text (never the reusable, pooled read buffer), for every option word",
 		Bounds: "as VerifC17StreamDecode3 (3-byte streams, <= 3 cuts), decoder option word arbitrary"},
 
@@ -105,6 +106,22 @@ var registry = []HarnessSpec{
 		Desc:   "invalid output of a user Marshaler is rejected unless validation was explicitly disabled (prim.EncodeJsonMarshaler, every option word)",
 		Bounds: "marshaler output in {\"1\", \" 1\", \"x\"} or failure; option word arbitrary"},
 
+	{Prop: "C12", Pkg: mod + "/internal/encoder", PkgName: "encoder", Func: "VerifC12VMRecurseFlags", Tier: "quick", Covers: []string{"end"},
+		Desc:    "vm.Execute on hand-assembled IR [byte, recurse(pv), eface, recurse, byte]: the pointer-value flag reaches only the one nested call; later nested calls in the same frame get the caller's option word (as the JIT does); natively: VM output == encoding/json on a recursive type with an interface field",
+		Bounds:  "one 5-instruction program, every 64-bit option word, type descriptor contents arbitrary (both Indirect() outcomes)",
+		Assumes: []string{"the nested encoder (vm.EncodeTypedPointer) is a stub logging its option word"}},
+	{Prop: "C18", Pkg: mod + "/internal/encoder", PkgName: "encoder", Func: "VerifC18VMEmptyOps", Tier: "quick", Covers: []string{"nonull", "null"},
+		Desc:   "vm.Execute OP_empty_arr/OP_empty_obj: NoNullSliceOrMap only turns null into []/{}; no other option bit matters",
+		Bounds: "every 64-bit option word"},
+	{Prop: "C04", Pkg: mod + "/internal/encoder", PkgName: "encoder", Func: "VerifC04VMFloat", Tier: "quick", Covers: []string{"null", "error", "finite"},
+		Desc:   "vm.Execute OP_f64/OP_f32: NaN/Inf -> error, or null with EncodeNullForInfOrNan, never text; finite -> formatted once; for all bit patterns and option words",
+		Bounds: "all 2^64 / 2^32 bit patterns, every option word; number formatting stubbed"},
+	{Prop: "C04", Pkg: mod + "/internal/encoder", PkgName: "encoder", Func: "VerifC04VMNumber", Tier: "quick", Covers: []string{"empty", "valid", "invalid"},
+		Desc:   "vm.Execute OP_number: json.Number text emitted verbatim iff the real encoding/json.isValidNumber accepts it, \"\" -> 0, otherwise an error",
+		Bounds: "all number texts of 0..3 bytes, every option word"},
+	{Prop: "C07", Pkg: mod + "/internal/encoder", PkgName: "encoder", Func: "VerifC07EncoderStack", Tier: "quick", Covers: []string{"full", "room"},
+		Desc:   "vars.Stack Push/Pop at the depth limit: refused at MaxStack (ERR_too_deep path), every store inside the stack array",
+		Bounds: "stack depths 0, 1, MaxStack-1, MaxStack, MaxStack+1"},
 	{Prop: "C12", Pkg: mod + "/internal/encoder/alg", PkgName: "alg", Func: "VerifC12F64toa", Tier: "quick", Covers: []string{"end"},
 		Desc:    "alg.F64toa (Go wrapper used by the VM encoder) appends exactly the text of native f64toa (called directly by the JIT), for every float64 bit pattern and buffer geometry",
 		Bounds:  "all 2^64 bit patterns; buffer len 0..2, cap 0..70",
@@ -120,9 +137,66 @@ var registry = []HarnessSpec{
 	{Prop: "C20", Pkg: mod + "/internal/encoder/alg", PkgName: "alg", Func: "VerifC20HtmlEscapeLoop", Tier: "quick", Covers: []string{"long-prefix", "end"},
 		Desc:   "alg.HtmlEscape: destination prefix preserved, all of src consumed in order, no write outside dst capacity, no panic, for every dst geometry",
 		Bounds: "src 1..3 bytes; dst len in 0..2 or 66..80, cap up to 90"},
+	{Prop: "C20", Pkg: mod + "/internal/encoder/alg", PkgName: "alg", Func: "VerifC20QuoteRestarts", Tier: "quick", Covers: []string{"two-restarts", "end"},
+		Desc:   "alg.Quote through several grow-and-resume rounds (input of N control bytes, output 6N): resumed at the first unconsumed byte every time; natively the literal decodes back to the input",
+		Bounds: "N in {7,20,48,100}, buffer geometry classes, single and double mode"},
+	{Prop: "C20", Pkg: mod + "/internal/encoder/alg", PkgName: "alg", Func: "VerifC20HtmlEscapeRestarts", Tier: "quick", Covers: []string{"two-restarts", "end"},
+		Desc:   "alg.HtmlEscape through several grow-and-resume rounds (two thirds '<'): resumed at the first unconsumed byte; natively equals encoding/json.HTMLEscape",
+		Bounds: "N in {7,20,48,100}, dst len {0,2} x spare {0,5,70,200}"},
+	{Prop: "C04", Pkg: mod + "/internal/encoder/alg", PkgName: "alg", Func: "VerifC20HtmlEscapeRestarts", Tier: "quick", Covers: []string{"end"},
+		Desc:   "the EscapeHTML post-pass never truncates or duplicates parts of the document when its buffer has to grow more than once",
+		Bounds: "N in {7,20,48,100}"},
+	{Prop: "C13", Pkg: mod + "/internal/native", PkgName: "native", Func: "VerifC13Dispatch", Tier: "quick", Covers: []string{"end"},
+		Desc:    "dispatch wiring: useSSE()/useAVX2() bind each of the 17 subroutine addresses and 15 Go entry points to the same-named symbol of the selected package",
+		Bounds:  "both instruction-set selections; every exported symbol carries a unique marker",
+		Assumes: []string{"sse.Use/avx2.Use (blob loaders) are stubbed under the symbolic engine"}},
 	{Prop: "C07", Pkg: mod + "/internal/encoder/alg", PkgName: "alg", Func: "VerifC20HtmlEscapeLoop", Tier: "quick", Covers: []string{"end"},
 		Desc:   "encoder.HTMLEscape (alg.HtmlEscape) never panics, whatever prefix/capacity the destination has",
 		Bounds: "src 1..3 bytes; dst len in 0..2 or 66..80, cap up to 90"},
+
+	{Prop: "C05", Pkg: mod + "/ast", PkgName: "ast", Func: "VerifC05SkipBlank", Tier: "quick", Covers: []string{"eof", "found"},
+		Desc:   "ast.skipBlank (raw pointer walk): every byte load inside the input object; result = first non-blank position",
+		Bounds: "all inputs of 0..3 bytes, all start positions; natively the input ends at a page edge followed by a PROT_NONE page"},
+	{Prop: "C05", Pkg: mod + "/ast", PkgName: "ast", Func: "VerifC05SkipString", Tier: "quick", Covers: []string{"closed", "error"},
+		Desc:   "ast.skipString (sp += 2 on escapes): every byte load inside the input object",
+		Bounds: "all inputs of 0..4 bytes, all start positions"},
+	{Prop: "C05", Pkg: mod + "/ast", PkgName: "ast", Func: "VerifC05SkipNumber", Tier: "quick", Covers: []string{"number", "error"},
+		Desc:   "utils.SkipNumber (reads *(sp-1) on a sign): every byte load inside the input object",
+		Bounds: "all inputs of 0..4 bytes, all start positions"},
+	{Prop: "C05", Pkg: mod + "/ast", PkgName: "ast", Func: "VerifC05SkipValue", Tier: "quick", Covers: []string{"value", "error"},
+		Desc:   "ast.skipValue / skipValueFast (pure-Go scanners incl. skipObject/skipArray/decodeTrue...): every byte load inside the input object, positions inside the input",
+		Bounds: "all inputs of 0..3 bytes, all start positions"},
+
+	{Prop: "C16", Pkg: mod + "/ast", PkgName: "ast", Func: "VerifC16LoadedReadsAreReadOnly", Tier: "quick", Covers: []string{"big", "small"}, NoReplay: true,
+		Desc:    "after LoadAll every documented read operation (Get, Index, GetByPath, Raw, MarshalJSON, Len, IndexOrGet, typed accessor) performs no plain store to any pre-existing object: readers cannot race with each other in any interleaving",
+		Bounds:  "3-member and 17-member objects (hash index threshold crossed), all ordered pairs of 8 read operations, symbolic search key",
+		Assumes: []string{"sufficient condition: operations that only read shared memory are race-free; sync primitives are modelled as lock sets (no weak-memory effects)", "data races are not observable in a sequential native replay: violations of this discipline are reported from the symbolic run (the store site is printed) without native confirmation"}},
+	{Prop: "C16", Pkg: mod + "/ast", PkgName: "ast", Func: "VerifC16ConcurrentReadNode", Tier: "quick", Covers: []string{"end"}, NoReplay: true,
+		Desc:   "a NewRawConcurrentRead node starting raw: every store to shared state made by a read operation happens while the node's write lock is held (raw->parsed conversion); no store outside it",
+		Bounds: "one 3-member document with nested children, all ordered pairs of 8 read operations"},
+	{Prop: "C08", Pkg: mod + "/internal/caching", PkgName: "caching", Func: "VerifC08PcacheRCU", Tier: "quick", Covers: []string{"end"}, NoReplay: true,
+		Desc:   "ProgramCache RCU discipline: Get performs no store; Compute never modifies a published map or any pre-existing object except by the atomic publication of the new map (copy-on-write), from an arbitrary valid cache state",
+		Bounds: "capacity 4, every occupancy pattern with <= 2 entries, symbolic hashes"},
+	{Prop: "C08", Pkg: mod + "/internal/encoder", PkgName: "encoder", Func: "VerifC06EncodeOwnership", Tier: "quick", Covers: []string{"above-limit", "below-limit"}, PoolNondet: true,
+		Desc:   "buffer pool recycling: a buffer handed to a caller is never also owned by bytesPool (another goroutine's Marshal could otherwise overwrite it), on both sides of and exactly at the pool size limit",
+		Bounds: "as VerifC06EncodeOwnership"},
+
+	{Prop: "C11", Pkg: mod + "/internal/decoder/optdec", PkgName: "optdec", Func: "VerifC11IntFunctors", Tier: "quick", Covers: []string{"null", "fits", "rejected"},
+		Desc:    "optdec i8..i64/u8..u64 functors on an arbitrary number node: exact value stored, out-of-range / negative-into-unsigned / non-integer rejected, null leaves the destination untouched (the semantics the generated decoder and encoding/json implement)",
+		Bounds:  "node kind in {null, uint, sint, real, true}, all 2^64 payloads, all 8 integer widths",
+		Assumes: []string{"the DOM node handed to the functor is what native parse_with_padding builds (KUint for non-negative, KSint for negative integers)"}},
+	{Prop: "C11", Pkg: mod + "/internal/decoder/optdec", PkgName: "optdec", Func: "VerifC11Float32Functor", Tier: "quick", Covers: []string{"overflow", "finite"},
+		Desc:   "optdec float32 functor: a double is accepted iff its correctly rounded float32 is finite, and that value is stored (SMT floating-point theory for compare/convert)",
+		Bounds: "all finite float64 bit patterns"},
+	{Prop: "C11", Pkg: mod + "/internal/decoder/optdec", PkgName: "optdec", Func: "VerifC11StructEscapedKey", Tier: "quick", Covers: []string{"end"},
+		Desc:   "optdec structDecoder.FromDom on the DOM of {\"a\\/b\":7}: the field lookup uses the unescaped key (as the default decoder and encoding/json do)",
+		Bounds: "one document; every option word without DisallowUnknownFields"},
+	{Prop: "C19", Pkg: mod + "/internal/decoder/optdec", PkgName: "optdec", Func: "VerifC11IntFunctors", Tier: "quick", Covers: []string{"fits", "rejected"},
+		Desc:   "integers convert exactly to every width; out-of-range and non-integer numbers are rejected rather than wrapped or truncated (optdec functors, all payloads)",
+		Bounds: "as VerifC11IntFunctors"},
+	{Prop: "C19", Pkg: mod + "/internal/decoder/optdec", PkgName: "optdec", Func: "VerifC11Float32Functor", Tier: "quick", Covers: []string{"overflow", "finite"},
+		Desc:   "float32 destinations: accepted iff the rounded float32 is finite (as encoding/json), for all finite doubles",
+		Bounds: "all finite float64 bit patterns"},
 
 	{Prop: "C14", Pkg: mod + "/ast", PkgName: "ast", Func: "VerifC14ObjectGet", Tier: "quick", Covers: []string{"missing", "found", "duplicate"},
 		Desc:    "Node.Get on a raw object: first occurrence of the key or not-exist; Raw() and Int64() of the located node describe exactly that value",
@@ -160,6 +234,10 @@ var registry = []HarnessSpec{
 	{Prop: "C09", Pkg: mod + "/internal/caching", PkgName: "caching", Func: "VerifC09PcacheStep4", Tier: "quick", Covers: []string{"rehash", "norehash"},
 		Desc:   "_ProgramMap.add from an arbitrary valid map: copy-on-write, new key found, old keys keep their values, absent keys stay absent (equal hashes are not equal types), load factor kept",
 		Bounds: "capacity 4, every occupancy pattern with <= 2 entries, symbolic 32-bit hashes (inductive step: covers histories of any length that keep the invariant)"},
+	{Prop: "C09", Pkg: mod + "/loader", PkgName: "loader", Func: "VerifC09LoadMany", Tier: "quick", Covers: []string{"distinct", "same-name"},
+		Desc:    "loader.LoadMany/Load: every result is mapped back to its own input item (out[i] = entry of item i), for every equality pattern among function names, including 131-byte names that differ only in the last byte",
+		Bounds:  "batches of 3 items, names = 130-byte common prefix + one symbolic byte over {a,b,c}, text sizes 1,2,3",
+		Assumes: []string{"makeModuledata only sorts *funcs by entry offset and returns the text base (stub); moduledataverify1/registerModule have no effect on the mapping"}},
 	{Prop: "C09", Pkg: mod + "/internal/caching", PkgName: "caching", Func: "VerifC09PcacheStep8", Tier: "thorough", Covers: []string{"rehash", "norehash"},
 		Desc:   "same as VerifC09PcacheStep4 with capacity 8",
 		Bounds: "capacity 8, every occupancy pattern with <= 4 entries, symbolic hashes"},
